@@ -16,6 +16,7 @@ func init() {
 		&slip.FuncDoc{
 			Name: "ignorable",
 			Args: []*slip.DocArg{
+				{Name: "&rest"},
 				{
 					Name: "name",
 					Type: "symbol",
